@@ -387,12 +387,13 @@ def _run(ctx, quick, broken, exe, janet, workdir):
         "argument_sizes": {str(k): sizes[k] for k in sorted(sizes)},
         "kmp_mirror_vs_naive_exhaustive": kmp_ex,
         "search_family_exhaustive_on_impl": {"pattern_text_pairs": kx_n, "calls": kx_n * 4, "differing_patterns": len(kx_bad)},
-        "tested_only": "string/format / buffer/format directives are not modelled in Lean (tested against python % formatting only)",
+        "tested_only": "string/format / buffer/format: the subset %% %d %i %x %X %o %c %s (flags, width, precision) has a Lean definition (Lib/Format.lean) compared with the implementation; %f %e %g are compared with python % formatting only; %v %q %p %j etc. are not exercised. Conformance of every definition to the C code is by correspondence, not proof.",
     }
     return ctx.finish("proof", cov, assumptions=[
         "Lib/Spec.lean reference definitions are the documented semantics (trusted specification, cross-checked against an independent python oracle)",
         "bytes modelled as List Nat, janet numbers as Int (int32 arguments); doubles outside that fragment are compared with python only",
-        "printf-style formatting: tested, not proved",
+        "printf-style formatting: Lean reference definition for the integer/char/string subset, conformance tested, not proved; float directives python-only",
+        "range: exact comparison for integers and dyadic fractions (double arithmetic exact); other floats crash-only",
     ])
 
 
